@@ -85,6 +85,12 @@ def check(run):
     rf, rn = cc.reuse_findings(recs)
     findings += rf
     evaluations += rn
+    # second sentence of the property: an untyped destination receives the DOCUMENTED preferred Go type, at every level (harness prefdoc.go, from doc.go)
+    for r in cases:
+        if r.get("pref_differs"):
+            findings.append(dict(cc.slim(r), kind="preferred-type-differs", got=r.get("dec_type"), what="%s (value %s, v%d)" % (r["pref_differs"], r["val_coq"][:200], r["ver"])))
+        elif r.get("dec_type"):
+            evaluations += 1
     # Encode leaves its source alone and is repeatable
     sf0, sn0 = cc.source_findings(cases)
     findings += sf0
